@@ -81,8 +81,15 @@ pub fn line_to_spec(line: &str) -> Spec {
 /// Run the implementation on a thread with the platform's usual main-thread stack
 /// size (8 MiB), so that stack exhaustion on deep nesting is not hidden.
 fn run_on_small_stack<T: Send + 'static>(f: impl FnOnce() -> T + Send + 'static) -> Option<T> {
+    run_on_stack(8 * 1024, f)
+}
+/// routes 30.. = routes 0.. on a 1.5 MiB stack (a little below Rust's 2 MiB default for spawned
+/// threads): used by the deep-nesting cases.  Not 2 MiB exactly: glibc keeps finished threads'
+/// stacks in a cache and serves a request from a cached stack of up to four times the requested
+/// size, so after an 8 MiB rendering thread a "2 MiB" thread would silently get 8 MiB.
+fn run_on_stack<T: Send + 'static>(kib: usize, f: impl FnOnce() -> T + Send + 'static) -> Option<T> {
     std::thread::Builder::new()
-        .stack_size(8 * 1024 * 1024)
+        .stack_size(kib * 1024)
         .spawn(f)
         .unwrap()
         .join()
@@ -129,8 +136,12 @@ pub fn worker_handle(line: &str) -> String {
             }
         }
     } else {
-        let s2 = spec.clone();
-        let r = run_on_small_stack(move || {
+        let mut s2 = spec.clone();
+        let kib = if (30..40).contains(&s2.route) { 1536 } else { 8 * 1024 };
+        if (30..40).contains(&s2.route) {
+            s2.route -= 30;
+        }
+        let r = run_on_stack(kib, move || {
             let r = std::panic::catch_unwind(|| run_impl(&s2.cfg, s2.route, s2.width, &s2.html));
             let msg = LAST_PANIC.with(|p| p.borrow().clone());
             (r, msg)
